@@ -19,7 +19,7 @@
 (*   "bad_u" bytes do not match the name, not write-protected              *)
 (*   "bad_p" bytes do not match the name, mode 0o444 (trusted by the code)  *)
 (***************************************************************************)
-EXTENDS Naturals, FiniteSets, TLC
+EXTENDS Naturals, FiniteSets, Sequences, TLC
 
 CONSTANTS
     Files,      \* file object ids
@@ -80,6 +80,8 @@ PresentSet(S, s) == {o \in Oids : Present(S, s, o)}
 ListsOf(ds)      == UNION {Lists[d] : d \in ds \cap Dirs}
 Expand(ids, shallow) == IF shallow THEN ids ELSE ids \cup ListsOf(ids)
 Closed(S, s)     == \A d \in Dirs : Present(S, s, d) => \A f \in Lists[d] : Present(S, s, f)
+Unclosed(s)      == "unclosed:" \o s
+ClosedRequest(req, shallow) == ~shallow \/ \A d \in req \cap Dirs : Lists[d] \subseteq req
 Local(s)         == Class[s] = "local"
 
 \* oids_exist(): LocalHashFileDB runs check() on each id (a 0o444 object is
@@ -272,7 +274,8 @@ TransferBegin(src, dst, req, shallow, F, verify, useIdx) ==
                          idx |-> useIdx /\ dst = IdxStore, sidx |-> useIdx /\ src = IdxStore, new |-> q.new, missing |-> q.missing,
                          ok |-> q.ok, pre |-> PresentSet(q.S, dst)]
                /\ last' = [op |-> "xstatus", new |-> q.new, missing |-> q.missing]
-               /\ opened' = IF src \in opened THEN opened \cup {dst} ELSE opened
+               /\ opened' = (IF src \in opened THEN opened \cup {dst} ELSE opened)
+                             \cup (IF Unclosed(src) \in opened /\ ~ClosedRequest(req, shallow) THEN {Unclosed(dst)} ELSE {})
                /\ IF q.new = {}
                   THEN /\ ph' = "idle" /\ todo' = {} /\ loose' = {}
                   ELSE /\ ph' = "run" /\ todo' = q.new \cap Dirs /\ loose' = q.new \cap Files
@@ -463,8 +466,10 @@ Spec == Init /\ [][Next]_vars
 \* ---- C04 : a directory object in the destination implies its files -------
 \* every state, also in the middle of a transfer and after an abort, for every
 \* store whose history contains only dvc-data operations
-C04_Closed == dev = {} => \A s \in Stores : s \notin opened => Closed(store, s)
-C04_ClosedRaw == \A s \in Stores : s \notin opened => Closed(store, s)
+\* (a store that was not closed when the history began is marked Unclosed(s) in `opened`: nothing is demanded of it, but -
+\* unlike a tampered source - it does not excuse the destination of a closed request)
+C04_Closed == dev = {} => \A s \in Stores : (s \notin opened /\ Unclosed(s) \notin opened) => Closed(store, s)
+C04_ClosedRaw == \A s \in Stores : (s \notin opened /\ Unclosed(s) \notin opened) => Closed(store, s)
 \* at the end of a transfer: a directory one of whose files failed is withheld and reported
 C04_Withheld(L, fl, okd, S, dst) ==
     \A d \in Dirs : (ListedFailure(d, fl) /\ d \in xs.new) => (d \in L.failed /\ d \notin okd)
